@@ -9,13 +9,15 @@ func init() {
 			"(E1c) the management loop is never re-entered (mgmtOperation) and no WaitGroup is awaited while a lock its signallers need may be held; " +
 			"(E1d/E1e) goroutines that own a WaitGroup slot signal it on every exit and every goroutine start matches a recognised termination idiom; " +
 			"(E2d) Serialize/Len/String-style read-only methods of objects shared between goroutines do not write through their receiver; " +
-			"(E1b.active-destination / mac-index-handle) active destinations are only touched under their shard lock; (E6.identity-delete) a peer is removed from the registry only if the registry still holds that very peer. Also: (E1a.balanced) every function that acquires a lock releases it on all exits (deferred closures verified); (E1c.blocking-under-lock) blocking channel operations that can run under sharedData.mu are exactly the reviewed, bounded sites. (E1d.waitgroup) goroutines that signal a WaitGroup do so on every path and are started after an Add. (E1e.handover-capacity) WaitGroup-counted goroutines hand results over through channels with capacity ≥ 1.",
-		Not: "Races on state outside the guarded-by table, channel-induced deadlocks other than the two rules, lost wake-ups, liveness/quiescence and actual goroutine termination are not decided; lock classes are per field, not per instance.",
+			"(E1b.active-destination / mac-index-handle) active destinations are only touched under their shard lock; (E6.identity-delete) a peer is removed from the registry only if the registry still holds that very peer. Also: (E1a.balanced) every function that acquires a lock releases it on all exits (deferred closures verified); (E1c.blocking-under-lock) blocking channel operations that can run under sharedData.mu are exactly the reviewed, bounded sites; (E1c.counterpart-independent) where such a site is bounded because another goroutine consumes the channel, that goroutine — and, across WaitGroup.Wait, the goroutines it waits for — reaches neither mgmtOperation nor an acquisition of sharedData.mu synchronously; (E1c.reader-conn-closed) a state function that replaces the session connection while its reader goroutine runs closes the old connection before it returns, so its deferred wait for the reader ends and deleting the peer leaves no goroutine or connection behind. (E1d.waitgroup) goroutines that signal a WaitGroup do so on every path and are started after an Add. (E1e.handover-capacity) WaitGroup-counted goroutines hand results over through channels with capacity ≥ 1.",
+		Not: "Races on state outside the guarded-by table, channel-induced deadlocks other than what the E1c rules cover, lost wake-ups, liveness/quiescence and actual goroutine termination are not decided; lock classes are per field, not per instance.",
 		Run: func(c *Ctx) {
 			c.ruleRatchets("C20")
 			c.ruleLockOrder()
 			c.ruleBalanced()
 			c.ruleBlockingUnderLock()
+			c.ruleCounterpartIndependent("E1c.counterpart-independent", 2)
+			c.ruleReaderConnClosed("E1c.reader-conn-closed", 2)
 			c.ruleAPICallbackUnderLock()
 			c.ruleWaitGroupPairing()
 			c.ruleHandoverCapacity()
